@@ -32,6 +32,8 @@ def normKinds : List Lex.K → List Lex.K
   | .punct '#' _ :: .op .bracket :: .cl .bracket :: rest => normKinds rest            -- `#[]`: no attribute
   | .punct '#' _ :: .punct '!' _ :: .op .bracket :: .cl .bracket :: rest => normKinds rest
   | .punct '-' _ :: .int 0 :: rest => .int 0 :: normKinds rest                       -- `-0`
+  | .cl .bracket :: .punct '#' _ :: .op .bracket :: .cl .bracket :: rest => normKinds (.cl .bracket :: rest)   -- `#[a] #[]`
+  | .cl .bracket :: .punct '#' _ :: .punct '!' _ :: .op .bracket :: .cl .bracket :: rest => normKinds (.cl .bracket :: rest)
   | .cl .bracket :: .punct '#' _ :: .op .bracket :: rest => .punct ',' false :: normKinds rest
   | .cl .bracket :: .punct '#' _ :: .punct '!' _ :: .op .bracket :: rest => .punct ',' false :: normKinds rest
   | .ident "type" :: .ident x :: .op .brace :: .cl .brace :: rest =>
